@@ -1608,3 +1608,33 @@ func (c *Ctx) reachedFromReceiverClose(fn *ssa.Function) bool {
 	}
 	return false
 }
+
+// ruleLocalFailureNotifiesPeer (C14.10): a read failure detected by the client ends the RPC on the server too.
+func ruleLocalFailureNotifiesPeer(c *Ctx, rule string) {
+	c.rule(rule, "the client's receive method never ends the RPC only locally: when it detects a failure itself it calls the cancel-stream function (which also emits the cancel frame), not the finishing function directly — otherwise the server keeps the handler, its context watcher and the table entry until the tunnel dies")
+	w := c.W
+	a := w.Anchors()
+	if !c.need(rule, "ClientRecv", a.ClientRecv) || !c.need(rule, "ClientFinish", a.ClientFinish) || !c.need(rule, "CancelStream", a.CancelStream) {
+		return
+	}
+	nCancel := 0
+	for _, fn := range []*ssa.Function{a.ClientRecv, a.ClientRead, a.ClientReasmEntry, a.ClientReasm} {
+		if fn == nil {
+			continue
+		}
+		allInstrs(fn, func(in ssa.Instruction) {
+			ci, ok := in.(ssa.CallInstruction)
+			if !ok {
+				return
+			}
+			switch staticCallee(ci) {
+			case a.ClientFinish:
+				c.fail(rule, w.Short(fn)+": finishes the stream without notifying the server", w.At(in), "the receive path calls the finishing function directly: the RPC ends at the caller but no cancel frame is sent, so the server-side handler (possibly blocked on its flow-control window), its watcher goroutine and its table entry stay until the tunnel ends")
+			case a.CancelStream:
+				nCancel++
+				c.ok(rule, w.Short(fn)+": local failure cancels the stream", w.At(in), "cancel-stream (emits the cancel frame)")
+			}
+		})
+	}
+	c.floor(rule, nCancel, 1, "cancel-stream calls on the client receive path")
+}
